@@ -1379,6 +1379,211 @@ Proof.
   rewrite (nearest_anc_sound Q d _ _ Hnear _ _ Hu) in H. by apply bool_decide_eq_true in H.
 Qed.
 
+(* ================= the fuel of the modelled recursions suffices ================= *)
+(* VFuel is the model's answer where the Go code would not return.  On a queue set satisfying
+   ShapeInv it never occurs: fuel_of Q = S (size Q) exceeds every chain of parent links. *)
+
+Lemma reach_set Q n k : reach Q n k ->
+  exists X : gset positive, size X = k /\
+    forall x, x ∈ X -> is_Some (Q !! x) /\ exists j, reach Q x j /\ (j <= k)%nat.
+Proof.
+  induction 1 as [n s Hn Ht|n s p k Hn Hp Hr H IH].
+  - exists {[n]}. split; [by rewrite size_singleton|]. intros x Hx. apply elem_of_singleton in Hx as ->.
+    split; [eauto|]. exists 1%nat. split; [by eapply reach_top|lia].
+  - destruct IH as (X & Hsz & HX). exists ({[n]} ∪ X). split.
+    + rewrite size_union, size_singleton; [lia|]. apply disjoint_singleton_l. intros Hin.
+      destruct (HX _ Hin) as (_ & j & Hj & Hle).
+      assert (reach Q n (S k)) as Hn' by by eapply reach_up.
+      pose proof (reach_fun _ _ _ _ Hj Hn'). lia.
+    + intros x Hx. apply elem_of_union in Hx as [Hx|Hx].
+      * apply elem_of_singleton in Hx as ->. split; [eauto|]. exists (S k). split; [by eapply reach_up|lia].
+      * destruct (HX _ Hx) as (Hs & j & Hj & Hle). split; [done|]. exists j. split; [done|lia].
+Qed.
+
+Lemma reach_size Q n k : reach Q n k -> (k <= size Q)%nat.
+Proof.
+  intros H. destruct (reach_set _ _ _ H) as (X & <- & HX).
+  rewrite <- (size_dom (D := gset positive) Q). apply subseteq_size.
+  intros x Hx. apply elem_of_dom. by destruct (HX _ Hx).
+Qed.
+
+Lemma nearest_cap_some Q d p k : reach Q p k -> p <> root ->
+  forall fuel, (k <= fuel)%nat -> nearest_cap fuel Q (Some p) d <> None.
+Proof.
+  induction 1 as [n s Hn Ht|n s p2 k Hn Hp Hr H IH]; intros Hnr fuel Hle.
+  - destruct fuel; [lia|]. simpl. rewrite bool_decide_eq_false_2 by done. rewrite Hn.
+    case_bool_decide; [done|]. destruct (qparent s) as [p2|]; [|by destruct fuel].
+    apply is_top_some in Ht as ->. by destruct fuel.
+  - destruct fuel; [lia|]. simpl. rewrite bool_decide_eq_false_2 by done. rewrite Hn.
+    case_bool_decide; [done|]. rewrite Hp. apply IH; [done|lia].
+Qed.
+
+Lemma foldr_opt_max_some {A} (g : A -> option Z) (l : list A) :
+  (forall x, x ∈ l -> g x <> None) -> foldr (fun c acc => opt_max (g c) acc) (Some 0) l <> None.
+Proof.
+  induction l as [|a l IH]; intros H; simpl; [done|].
+  destruct (g a) eqn:Ha; [|by exfalso; apply (H a); [left|]].
+  destruct (foldr _ _ l) eqn:Hf; [done|]. exfalso. apply IH; [|done]. intros x Hx. apply H. by right.
+Qed.
+
+Lemma foldr_names_some (g : positive * qspec -> option (list positive)) (h : positive * qspec -> list positive)
+      (kids : list (positive * qspec)) :
+  (forall c, c ∈ kids -> g c <> None) ->
+  foldr (fun c acc => match g c, acc with
+                      | Some a, Some b => Some (h c ++ a ++ b)
+                      | _, _ => None
+                      end) (Some []) kids <> None.
+Proof.
+  induction kids as [|k kids IH]; intros H; simpl; [done|].
+  destruct (g k) eqn:Hk; [|by exfalso; apply (H k); [left|]].
+  destruct (foldr _ _ kids) eqn:Hf; [done|]. exfalso. apply IH; [|done]. intros x Hx. apply H. by right.
+Qed.
+
+Section Fuel.
+Context (c : cfg) (Q : queues) (Hshape : ShapeInv c Q).
+
+Lemma kid_reach x k cn sc : reach Q x k -> x <> root -> (cn, sc) ∈ children_of Q x ->
+  cn <> root /\ reach Q cn (S k).
+Proof.
+  intros Hx Hxr Hin. apply elem_children in Hin as [Hc Hp].
+  destruct Hshape as [(sr & Hsr & Hpr) _]. split.
+  - intros ->. rewrite Hsr in Hc. inversion Hc; subst. congruence.
+  - by eapply reach_up.
+Qed.
+
+Lemma subtree_max_some d : forall fuel x k s, reach Q x k -> x <> root -> (size Q < fuel + k)%nat ->
+  subtree_max fuel Q x s d <> None.
+Proof.
+  induction fuel as [|f IH]; intros x k s Hx Hxr Hlt.
+  - pose proof (reach_size _ _ _ Hx). lia.
+  - simpl. case_bool_decide; [done|]. apply foldr_opt_max_some. intros [cn sc] Hin. simpl.
+    destruct (kid_reach _ _ _ _ Hx Hxr Hin) as [Hcr Hck]. apply (IH cn (S k)); [done..|lia].
+Qed.
+
+Lemma desc_names_some : forall fuel x k, reach Q x k -> x <> root -> (size Q < fuel + k)%nat ->
+  desc_names fuel Q x <> None.
+Proof.
+  induction fuel as [|f IH]; intros x k Hx Hxr Hlt.
+  - pose proof (reach_size _ _ _ Hx). lia.
+  - simpl. apply (foldr_names_some (fun c0 => desc_names f Q (fst c0))). intros [cn sc] Hin. simpl.
+    destruct (kid_reach _ _ _ _ Hx Hxr Hin) as [Hcr Hck]. apply (IH cn (S k)); [done..|lia].
+Qed.
+
+(* a queue of Q other than root, or a name not in Q (which then has no children) *)
+Lemma kid_top n cn sc : n <> root -> (cn, sc) ∈ children_of Q n -> cn <> root /\ exists k, reach Q cn k.
+Proof.
+  intros Hnr Hin. apply elem_children in Hin as [Hc Hp].
+  destruct Hshape as [(sr & Hsr & Hpr) Hall].
+  assert (cn <> root) as Hcr. { intros ->. rewrite Hsr in Hc. inversion Hc; subst. congruence. }
+  split; [done|]. destruct (Hall _ _ Hc Hcr) as (k & Hk & _). eauto.
+Qed.
+
+Lemma subtree_max_top n s d : n <> root -> subtree_max (fuel_of Q) Q n s d <> None.
+Proof.
+  intros Hnr. unfold fuel_of. simpl. case_bool_decide; [done|]. apply foldr_opt_max_some.
+  intros [cn sc] Hin. simpl. destruct (kid_top _ _ _ Hnr Hin) as (Hcr & k & Hk).
+  apply (subtree_max_some d _ cn k); [done..|]. pose proof (reach_pos _ _ _ Hk). lia.
+Qed.
+
+Lemma desc_names_top n : n <> root -> desc_names (fuel_of Q) Q n <> None.
+Proof.
+  intros Hnr. unfold fuel_of. simpl. apply (foldr_names_some (fun c0 => desc_names (size Q) Q (fst c0))).
+  intros [cn sc] Hin. simpl. destruct (kid_top _ _ _ Hnr Hin) as (Hcr & k & Hk).
+  apply (desc_names_some _ cn k); [done..|]. pose proof (reach_pos _ _ _ Hk). lia.
+Qed.
+
+Lemma nearest_cap_top p ps d : p <> root -> Q !! p = Some ps -> nearest_cap (fuel_of Q) Q (Some p) d <> None.
+Proof.
+  intros Hpr Hp. destruct Hshape as [_ Hall]. destruct (Hall _ _ Hp Hpr) as (k & Hk & _).
+  apply (nearest_cap_some _ _ _ k); [done..|]. pose proof (reach_size _ _ _ Hk). unfold fuel_of. lia.
+Qed.
+
+Lemma first_bad_in l : first_bad l = VAllowed \/ first_bad l ∈ l.
+Proof.
+  induction l as [|v l IH]; simpl; [by left|]. destruct (allowed v); [|right; by left].
+  destruct IH as [IH|IH]; [by left|right; by right].
+Qed.
+
+Lemma first_bad_no_fuel {A} (f : A -> verdict) (l : list A) :
+  (forall x, f x <> VFuel) -> first_bad (map f l) <> VFuel.
+Proof.
+  intros H. destruct (first_bad_in (map f l)) as [E|E]; [by rewrite E|].
+  intros Hf. rewrite Hf in E. apply elem_of_list_In, in_map_iff in E as (x & Hx & _). by apply (H x).
+Qed.
+
+Lemma validate_resources_no_fuel n s : n <> root -> validate_resources Q n s <> VFuel.
+Proof.
+  intros Hnr. unfold validate_resources, validate_resources_with.
+  assert (children_constraints Q s (children_of Q n) <> VFuel) as Hkc.
+  { unfold children_constraints.
+    destruct (first_bad _) eqn:E; try done.
+    - by destruct (sum_check _ _ && sum_check _ _).
+    - exfalso. revert E. apply first_bad_no_fuel. intros d.
+      destruct (foldr _ _ (children_of Q n)) eqn:Hf; [by case_bool_decide|]. exfalso. revert Hf.
+      apply (foldr_opt_max_some (fun c0 : positive * qspec => subtree_max (fuel_of Q) Q (fst c0) (snd c0) d)).
+      intros [cn sc] Hin. cbn [fst snd]. destruct (kid_top _ _ _ Hnr Hin) as (Hcr & k & Hk).
+      apply (subtree_max_some d _ cn k); [done..|]. unfold fuel_of. lia. }
+  assert (forall p ps, qparent s = Some p -> p <> root -> Q !! p = Some ps -> child_vs_ancestor Q n s <> VFuel) as Hcva.
+  { intros p ps Hp Hpr Hps. unfold child_vs_ancestor.
+    assert (child_vs_ancestor_own Q s <> VFuel) as Hown.
+    { unfold child_vs_ancestor_own. apply first_bad_no_fuel. intros d. rewrite Hp.
+      pose proof (nearest_cap_top p ps d Hpr Hps).
+      destruct (nearest_cap _ Q (Some p) d) as [[up|]|]; [by case_bool_decide|done|done]. }
+    destruct (child_vs_ancestor_own Q s) eqn:E; try done.
+    unfold child_vs_ancestor_desc. pose proof (desc_names_top n Hnr).
+    destruct (desc_names _ Q n) as [names|]; [|done].
+    apply first_bad_no_fuel. intros d. rewrite Hp.
+    pose proof (nearest_cap_top p ps d Hpr Hps). pose proof (subtree_max_top n s d Hnr).
+    destruct (subtree_max _ Q n s d); [|done].
+    destruct (nearest_cap _ Q (Some p) d) as [[up|]|]; [by case_bool_decide|done|done]. }
+  destruct (qparent s) as [p|] eqn:Hp.
+  - case_bool_decide as Hpr.
+    + destruct (children_of Q n) eqn:E; [done|]. exact Hkc.
+    + destruct (Q !! p) as [ps|] eqn:Hps; [|done].
+      pose proof (Hcva p ps eq_refl Hpr Hps) as Hc.
+      destruct (child_vs_ancestor Q n s) eqn:Ec; try done.
+      unfold siblings_sum. destruct (sum_check _ _ && sum_check _ _); [|done].
+      destruct (children_of Q n) eqn:E; [done|]. exact Hkc.
+  - destruct (children_of Q n) eqn:E; [done|]. exact Hkc.
+Qed.
+
+Lemma depth_walk_no_fuel rem : forall self parent, depth_walk rem Q self parent <> inl VFuel.
+Proof.
+  induction rem as [|r IH]; intros self [p|]; simpl; try done.
+  - case_bool_decide; [done|]. by case_bool_decide.
+  - case_bool_decide; [done|]. case_bool_decide; [done|]. destruct (Q !! p); [apply IH|done].
+Qed.
+
+Lemma validate_hier_no_fuel n s : validate_hier c Q n s <> VFuel.
+Proof.
+  unfold validate_hier. destruct (qparent s) as [p|]; [|done].
+  case_bool_decide; [done|]. case_bool_decide; [done|]. case_bool_decide; [done|].
+  pose proof (depth_walk_no_fuel (Z.to_nat (max_depth c - 1)) n (Some p)).
+  destruct (depth_walk _ Q n (Some p)) as [v|rem]; [by intros ->|].
+  destruct (_ <? _)%nat; [done|]. destruct (Q !! p); [|done]. by destruct (_ && _).
+Qed.
+
+Theorem no_fuel_verdict r : verdict_of c Q r <> VFuel.
+Proof.
+  assert (forall n s old, admit_cu c Q n s old <> VFuel) as Hcu.
+  { intros n s old. unfold admit_cu, admit_cu_with. destruct (negb _); [done|].
+    set (pc := match old with None => true | Some o => negb (bool_decide (qparent o = qparent s)) end).
+    pose proof (validate_hier_no_fuel n s) as Hh.
+    assert ((if pc then validate_hier c Q n s else VAllowed) <> VFuel) as Hh2 by (by destruct pc).
+    destruct (if pc then validate_hier c Q n s else VAllowed) eqn:E; try done.
+    destruct (root_prot c && bool_decide (n = root) && _); [done|].
+    destruct (decide (n = root)) as [->|Hnr]; [by rewrite bool_decide_eq_true_2|].
+    rewrite (bool_decide_eq_false_2 (n = root)) by done. simpl.
+    destruct (_ || _); [by apply validate_resources_no_fuel|done]. }
+  destruct r as [n s|n s|n|n a st]; simpl.
+  - apply Hcu.
+  - destruct (Q !! n); [apply Hcu|done].
+  - unfold admit_delete. destruct (_ || _); [done|]. destruct (Q !! n); [|done].
+    destruct (_ && _); [done|]. by destruct (negb _).
+  - by destruct (Q !! n).
+Qed.
+End Fuel.
+
 (* ================= the invariant along histories ================= *)
 
 Definition TreeInv (c : cfg) (Q : queues) : Prop :=
@@ -1483,6 +1688,27 @@ Example bootstrap_tree_inv :
   TreeInv default_cfg (list_to_map [(root, q_ None [] [] []); (default_q, q_ (Some root) [] [] [])]) /\
   TreeInv default_cfg (list_to_map [(root, q_ None [] [] []); (default_q, q_ None [] [] [])]).
 Proof. split; apply tree_okb_sound; by vm_compute. Qed.
+
+(* the root queue is carved out of the sums and of the capability bound BY THE CODE
+   (validateHierarchicalQueueResources skips a parent named root; findNearestAncestorCapability
+   stops below root; root's own updates are never validated against its children): with explicit
+   amounts on root, top-level queues may exceed them.  (The scheduler overwrites root's guarantee
+   and deserved with the sums of its children and treats an unset root capability as infinite,
+   capacity.go 1331-1348, 1528-1530.) *)
+Definition rootx_Q : queues :=
+  list_to_map [(root, q_ None (cpu_l 1000) (cpu_l 1000) (cpu_l 1000)); (default_q, q_ (Some root) [] [] [])].
+
+Theorem root_not_enforced_refuted :
+  exists c Q n s sr d, TreeInv c Q /\ Q !! root = Some sr /\ qparent s = Some root /\
+    verdict_of c Q (Create n s) = VAllowed /\
+    amount (qguar sr) d < csum qguar (apply_if_admitted c Q (Create n s)) root d /\
+    amount (qdes sr) d < csum qdes (apply_if_admitted c Q (Create n s)) root d /\
+    0 < capd sr d /\ capd sr d < capd s d.
+Proof.
+  exists default_cfg, rootx_Q, 3%positive, (q_ (Some root) (cpu_l 5000) (cpu_l 5000) (cpu_l 5000)),
+         (q_ None (cpu_l 1000) (cpu_l 1000) (cpu_l 1000)), cpu_d.
+  split; [apply tree_okb_sound; by vm_compute|]. repeat split; by vm_compute.
+Qed.
 
 (* F3, first half: the validation as it was before the fix admits a.parent := c on
    root <- a <- b <- c, and the result is not a tree *)
